@@ -1227,9 +1227,13 @@ class Frame:
                 inner = self.literal_items(it_node.args[0])
                 return None if inner is None else [('tuple', (C(i), e)) for i, e in enumerate(inner)]
             if f == 'zip':
-                parts = [self.literal_items(a) for a in it_node.args]
-                if any(p is None for p in parts):
+                cyc = [isinstance(a, ast.Call) and ast.unparse(a.func) in ('cycle', 'itertools.cycle') and len(a.args) == 1 for a in it_node.args]
+                parts = [self.literal_items(a.args[0] if c else a) for a, c in zip(it_node.args, cyc)]
+                if any(p is None for p in parts) or all(cyc):
                     return None
+                n_ = min(len(p) for p, c in zip(parts, cyc) if not c)
+                # zip stops at the shortest finite operand; itertools.cycle(seq) repeats seq as often as needed
+                parts = [[p[i % len(p)] for i in range(n_)] if c and p else p for p, c in zip(parts, cyc)]
                 return [('tuple', tuple(x)) for x in zip(*parts)]
         if isinstance(it_node, ast.Call) and ast.unparse(it_node.func) in ('product', 'itertools.product'):
             parts = [self.literal_items(a) for a in it_node.args]
